@@ -28,6 +28,9 @@
 #include <errno.h>
 #include <fcntl.h>
 #include <limits.h>
+#include <poll.h>
+#include <signal.h>
+#include <time.h>
 #include <stdarg.h>
 #include <stdio.h>
 #include <stdlib.h>
@@ -406,6 +409,43 @@ void *mmap64(void *addr, size_t length, int prot, int flags, int fd, off64_t off
 		logf_("M %d %s %s\n", fd, name, p == MAP_FAILED ? "failed" : "ok");
 	}
 	return p;
+}
+
+/* poll/ppoll on fd 1 alone: the simulated consumer that "closes after k bytes"
+ * (out fail k EPIPE) shows what a pipe whose reader has gone shows - POLLERR -
+ * from the moment k bytes have been accepted; before that fd 1 is writable. */
+static int sim_poll_fd1(struct pollfd *fds)
+{
+	short re = 0;
+	if (out_f.fail_at >= 0 && out_f.fail_errno == EPIPE && out_f.total >= out_f.fail_at)
+		re = POLLERR;
+	else
+		re = (short)(fds[0].events & POLLOUT);
+	fds[0].revents = re;
+	logf_("P %d %ld\n", (int)re, out_f.total);
+	return re != 0;
+}
+
+int poll(struct pollfd *fds, nfds_t nfds, int timeout)
+{
+	static int (*real_poll)(struct pollfd *, nfds_t, int);
+	init();
+	if (active && nfds == 1 && fds && fds[0].fd == 1)
+		return sim_poll_fd1(fds);
+	if (!real_poll)
+		real_poll = dlsym(RTLD_NEXT, "poll");
+	return real_poll(fds, nfds, timeout);
+}
+
+int ppoll(struct pollfd *fds, nfds_t nfds, const struct timespec *tmo, const sigset_t *sigmask)
+{
+	static int (*real_ppoll)(struct pollfd *, nfds_t, const struct timespec *, const sigset_t *);
+	init();
+	if (active && nfds == 1 && fds && fds[0].fd == 1)
+		return sim_poll_fd1(fds);
+	if (!real_ppoll)
+		real_ppoll = dlsym(RTLD_NEXT, "ppoll");
+	return real_ppoll(fds, nfds, tmo, sigmask);
 }
 
 int isatty(int fd)
